@@ -488,7 +488,7 @@ impl<'a, 'd> Interp<'a, 'd> {
 			for p in &ps {
 				if let Err(e) = w.serialize(p) {
 					self.ctx.violation("C10/container-serialize-failed", e.to_string());
-					std::mem::forget(w);
+					super::container::discard(w);
 					return;
 				}
 			}
@@ -624,12 +624,20 @@ impl<'a, 'd> Interp<'a, 'd> {
 				(a, b)
 			})
 			.collect();
+		// rendering the schema (Debug, also embedded in serializer error messages) is a use like any other
+		let seq_dbg = format!("{s:?}");
+		let dbg_rounds = 1 + self.t.below(12);
 		let results: Vec<Vec<(Result<Vec<u8>, String>, Result<String, String>)>> = std::thread::scope(|scope| {
 			let handles: Vec<_> = (0..nthreads)
 				.map(|_| {
 					let jobs = &jobs;
+					let seq_dbg = &seq_dbg;
 					scope.spawn(move || {
-						jobs.iter()
+						let mut dbg_ok = true;
+						for _ in 0..dbg_rounds {
+							dbg_ok &= format!("{s:?}") == *seq_dbg;
+						}
+						let mut out = jobs.iter()
 							.map(|(p, e)| {
 								let mut sc = SerializerConfig::new(s);
 								let a = serde_avro_fast::to_datum_vec(p, &mut sc).map_err(|e| e.to_string());
@@ -637,7 +645,11 @@ impl<'a, 'd> Interp<'a, 'd> {
 								let b = AnySeed.deserialize(st.deserializer()).map(|v| format!("{v:?}")).map_err(|e| e.to_string());
 								(a, b)
 							})
-							.collect::<Vec<_>>()
+							.collect::<Vec<_>>();
+						if !dbg_ok {
+							out.push((Err("Debug rendering of the shared schema differs from the sequential rendering".to_string()), Err(String::new())));
+						}
+						out
 					})
 				})
 				.collect();
